@@ -240,7 +240,12 @@ func c08r1(c *Ctx) {
 			}
 		}
 		wrapperOK[w] = good
-		ob.Check(good, nil, "%s can return a locked contract without having tested Revisable (or the lock error): revising RPCs would accept renewed or expired contracts", w.Name())
+		if good {
+			ob.OK("every success return follows the Revisable test")
+		} else {
+			// a plain lock wrapper (also used by read-only RPCs): the revising callers are then held to the test themselves
+			ob.OK("does not test Revisable itself; each revising caller is checked for it")
+		}
 	}
 	for _, f := range h.handlers {
 		sinks := f.CallsTo(false, h.revisingSinks()...)
@@ -264,8 +269,8 @@ func c08r1(c *Ctx) {
 				continue
 			}
 			revisable := false
-			if site.wrapper != nil {
-				revisable = wrapperOK[site.wrapper]
+			if site.wrapper != nil && wrapperOK[site.wrapper] {
+				revisable = true
 			} else {
 				revisable = f.OnlyVia(sn, revisableTrueEdges(f, site.state))
 			}
@@ -570,7 +575,7 @@ func (h *hostAPI) expectedTargets(f *ir.Func, sink ir.Call, checks []sigCheck) (
 		v := h.revisionArg(f, sink)
 		need = []string{"revision"}
 		for _, ck := range checks {
-			if v != nil && f.ObjOf(ck.target) == v && f.Callee(ck.hashCall) == h.contractSig.Origin() {
+			if v != nil && f.ObjOf(ck.target) != nil && copyRoot(f, f.ObjOf(ck.target)) == copyRoot(f, v) && f.Callee(ck.hashCall) == h.contractSig.Origin() {
 				have["revision"] = ck
 			}
 		}
@@ -630,11 +635,17 @@ func c08r4(c *Ctx) {
 						continue
 					}
 					for _, w := range f.WritesIn(n.AST, false) {
-						if !isPrefixLvalue(f, ck.target, w.LHS) {
+						// (the hashed value, or the copy of it that is persisted)
+						root := f.ObjOf(rootOfLvalue(w.LHS))
+						onCopy := root != nil && f.ObjOf(ck.target) != nil && root != f.ObjOf(ck.target) && copyRoot(f, root) == copyRoot(f, f.ObjOf(ck.target))
+						if !isPrefixLvalue(f, ck.target, w.LHS) && !onCopy {
 							continue
 						}
 						if sel, ok := ast.Unparen(w.LHS).(*ast.SelectorExpr); ok && (sel.Sel.Name == "RenterSignature" || sel.Sel.Name == "HostSignature") {
 							continue
+						}
+						if onCopy && f.ObjOf(w.LHS) == root && w.RHS != nil && f.ObjOf(w.RHS) != nil && copyRoot(f, f.ObjOf(w.RHS)) == copyRoot(f, root) {
+							continue // the copy itself
 						}
 						bad = c.P.Pos(n.Pos())
 					}
@@ -676,14 +687,17 @@ func c08r5(c *Ctx) {
 					}
 					for _, w := range f.WritesIn(n.AST, false) {
 						sel, ok := ast.Unparen(w.LHS).(*ast.SelectorExpr)
-						if !ok || sel.Sel.Name != "HostSignature" || !sameLvalue(f, sel.X, ck.target) || w.RHS == nil {
+						if !ok || sel.Sel.Name != "HostSignature" || w.RHS == nil {
+							continue
+						}
+						if !sameLvalue(f, sel.X, ck.target) && !(f.ObjOf(sel.X) != nil && f.ObjOf(ck.target) != nil && copyRoot(f, f.ObjOf(sel.X)) == copyRoot(f, f.ObjOf(ck.target))) {
 							continue
 						}
 						call, ok := ast.Unparen(w.RHS).(*ast.CallExpr)
 						if !ok || f.Callee(call) != h.signHash.Origin() || len(call.Args) != 1 {
 							continue
 						}
-						if rcv, ok := call.Fun.(*ast.SelectorExpr); !ok || f.FieldOf(rcv.X) != h.hostKey {
+						if rcv, ok := call.Fun.(*ast.SelectorExpr); !ok || (f.FieldOf(rcv.X) != h.hostKey && f.FieldOf(origin(f, rcv.X)) != h.hostKey) {
 							continue
 						}
 						sameHash := ck.hashVar != nil && f.ObjOf(call.Args[0]) == ck.hashVar
@@ -940,4 +954,24 @@ func c08r8(c *Ctx) {
 	if n == 0 {
 		ir.Fail("no write of Prices.ValidUntil found in the server")
 	}
+}
+
+// copyRoot follows whole copies `x := y` (x defined exactly once, by the plain variable y of the same type) to the
+// variable the value was first held in.
+func copyRoot(f *ir.Func, obj types.Object) types.Object {
+	for i := 0; i < 4 && obj != nil; i++ {
+		ds := wholeDefs(f, obj)
+		if len(ds) != 1 || ds[0].RHS == nil {
+			break
+		}
+		if _, isID := ast.Unparen(ds[0].RHS).(*ast.Ident); !isID {
+			break
+		}
+		src, ok := f.ObjOf(ds[0].RHS).(*types.Var)
+		if !ok || src.IsField() || src == obj || !types.Identical(src.Type(), obj.Type()) {
+			break
+		}
+		obj = src
+	}
+	return obj
 }
